@@ -37,6 +37,10 @@ func Hash(v any) uint32 {
 	case *big.Rat:
 		return hash.DJB(Hash(v.Num()), Hash(v.Denom()))
 	case float64:
+		if v == 0 {
+			// +0.0 and -0.0 are equal, so they must have the same hash.
+			v = 0
+		}
 		return hash.UInt64(math.Float64bits(v))
 	case string:
 		return hash.String(v)
